@@ -243,6 +243,7 @@ class BottomUpDataset(BaseDataset):
         np_chunks: bool = False,
         np_chunks_path: Optional[str] = None,
         use_existing_chunks: bool = False,
+        edge_inds: Optional[list] = None,
     ) -> None:
         """Initialize class attributes."""
         super().__init__(
@@ -259,7 +260,12 @@ class BottomUpDataset(BaseDataset):
         self.confmap_head_config = confmap_head_config
         self.pafs_head_config = pafs_head_config
 
-        self.edge_inds = self.labels.skeletons[0].edge_inds
+        # `labels` is None when existing chunks are re-used: take the edges from the caller then
+        self.edge_inds = (
+            edge_inds
+            if self.labels is None
+            else self.labels.skeletons[0].edge_inds
+        )
         if not self.use_existing_chunks:
             rank = get_dist_rank()
             if (
